@@ -26,7 +26,7 @@ MANIFEST = dict(
          "'Collectable by the GC' is decided on the concrete witness of every path (weakref + gc.collect), not by the solver. S14: lru_cache live under tracing (cache keys in pjrpc are concrete objects).",
 )
 BOUNDS = {
-    'quick': {'step requests': 'jsonrpc in {str, symbolic other} x id in {absent,int,str,bool} x method symbolic str (9 registered methods incl. one with defaulted positional-only parameters and two without parameters) x params in K; batches of 0..2 elements over 7 element kinds', 'probe': 'after a concrete first request to each method kind: method symbolic (unbounded string), params in {[int], [int,2,3], {"x": int}}',
+    'quick': {'step requests': 'jsonrpc in {str, symbolic other} x id in {absent,int,str,bool} x method symbolic str (10 registered methods incl. a view method with the JSON-schema validator, one with defaulted positional-only parameters and two without parameters) x params in K; batches of 0..2 elements over 7 element kinds', 'probe': 'after a concrete first request to each method kind: method symbolic (unbounded string), params in {[int], [int,2,3], {"x": int}}',
               'dispatchers': 'sync, async'},
     'thorough': {'step requests': 'jsonrpc in K x id in K x method in {absent,int,str} x params in K', 'probe': 'as quick', 'dispatchers': 'sync, async'},
 }
@@ -34,7 +34,7 @@ STUBS = ['S1', 'S4 (+ jsonschema.ValidationError.__str__ constant)', 'S5', 'S13'
 OUTSIDE = ['threads', 'PydanticValidator', 'methods that keep state of their own']
 ASSUMPTIONS = []
 BUDGET = {'quick': 40.0, 'thorough': 120.0}
-ELS = ('echo', 'ctxm', 'vm', 'js', 'nosuch', 'notif_vm', 'pos', 'whoami', 'ping')
+ELS = ('echo', 'ctxm', 'vm', 'js', 'vjs', 'nosuch', 'notif_vm', 'pos', 'whoami', 'ping')
 
 
 def setup():
@@ -54,7 +54,7 @@ def obligations(tier):
             prod = it.product(KINDS, KINDS, ('absent', 'int', 'str'), KINDS)
         for kj, ki, km, kp in prod:
             obs.append({'h': 'step', 'disp': disp, 'k': [kj, ki, km, kp]})
-        for first in ('echo', 'ctxm', 'vm', 'js', 'pos', 'nosuch', 'whoami', 'ping'):
+        for first in ('echo', 'ctxm', 'vm', 'js', 'vjs', 'pos', 'nosuch', 'whoami', 'ping'):
             obs.append({'h': 'probe', 'disp': disp, 'first': first, '_budget': 90.0})
         for n in (0, 1, 2):
             for combo in it.product(ELS, repeat=n):
@@ -101,6 +101,10 @@ def _build_dispatcher(env, wire, disp):
 
             async def vm(self, x):
                 return [x]
+
+            @jsv.validate(schema={'type': 'object', 'properties': {'a': {'type': 'integer'}}, 'required': ['a']})
+            async def vjs(self, a):
+                return [a]
     else:
         def echo(x):
             return [x]
@@ -119,6 +123,10 @@ def _build_dispatcher(env, wire, disp):
             def vm(self, x):
                 return [x]
 
+            @jsv.validate(schema={'type': 'object', 'properties': {'a': {'type': 'integer'}}, 'required': ['a']})
+            def vjs(self, a):
+                return [a]
+
     def mw_sync(request, context, handler):
         return handler(request, context)
 
@@ -132,7 +140,8 @@ def _build_dispatcher(env, wire, disp):
         return error
 
     cls = pjrpc.server.AsyncDispatcher if is_async else pjrpc.server.Dispatcher
-    d = cls(middlewares=[mw_async if is_async else mw_sync], error_handlers={None: [eh_async if is_async else eh_sync]},
+    d = cls(middlewares=[mw_async if is_async else mw_sync], error_handlers={None: [eh_async if is_async else eh_sync], -32601: [eh_async if is_async else eh_sync],
+                             -32602: [eh_async if is_async else eh_sync]},
             **wire.kwargs())
     if is_async:
         async def pos(a, b=10, c=100, /):
@@ -268,7 +277,7 @@ def _step(env, ob, make_doc, probe=False):
         fresh = _build_dispatcher(env, wire, ob['disp'])
         # warm-up (set-up, concrete): one dispatch per method kind so that legitimately cached per-method data exists
         for dd in (d, fresh):
-            for m, p in (('echo', [1]), ('ctxm', [1]), ('vm', [1]), ('js', {'a': 1}), ('js', {'a': 'x'}), ('nosuch', []), ('pos', [1, 2, 3]), ('ping', []), ('whoami', [])):
+            for m, p in (('echo', [1]), ('ctxm', [1]), ('vm', [1]), ('js', {'a': 1}), ('js', {'a': 'x'}), ('nosuch', []), ('pos', [1, 2, 3]), ('ping', []), ('whoami', []), ('vjs', {'a': 1}), ('vjs', {'a': 'x'})):
                 _dispatch(dd, ob['disp'], wire.encode({'jsonrpc': '2.0', 'id': 1, 'method': m, 'params': p}), Ctx())
         before = _fingerprint(d)
     doc = make_doc()
@@ -342,7 +351,7 @@ def h_probe(ob):
     def run(env):
         def make_doc():
             m = ob['first']
-            params = {'a': 1} if m == 'js' else ([env.int('first.x')] if m not in ('nosuch', 'whoami', 'ping') else [])
+            params = {'a': 1} if m in ('js', 'vjs') else ([env.int('first.x')] if m not in ('nosuch', 'whoami', 'ping') else [])
             return {'jsonrpc': '2.0', 'id': env.int('first.id'), 'method': m, 'params': params}
         return _step(env, ob, make_doc, probe=True)
 
@@ -356,7 +365,7 @@ def h_step_batch(ob):
             for i, k in enumerate(ob['els']):
                 m = 'vm' if k == 'notif_vm' else k
                 d = {'jsonrpc': '2.0', 'method': m}
-                if m == 'js':
+                if m in ('js', 'vjs'):
                     d['params'] = {'a': env.int(f'p{i}')}
                 elif m not in ('whoami', 'ping'):
                     d['params'] = [env.int(f'p{i}')]
